@@ -77,6 +77,7 @@ class Profile:
     tco_safe: bool = False                          # tail calls only in functions with no other call and no early return (F-C02-a family)
     global_writes: bool = True                      # functions assign module-level variables (`global g`)
     loop_control: bool = True                       # break / continue at all
+    range_var_bounds: bool = True                   # `b = e % 4; for i in range(b)`: a range bound held in a variable whose last use is the loop header
     loopctl_heavy: bool = False                     # many break / continue / dead loops (C05 loop-label paths)
     dead_loops: bool = True                         # `while False:` blocks (disabled code)
     named_constants: bool = True                    # module-level single-assignment constants used by name (folded by the transpiler)
@@ -586,11 +587,34 @@ class Gen:
                     else:
                         start = self.named(start[1])
                     self.feat("for_range_named_const")
+                pre = None
+                if self.p.range_var_bounds and nargs in (1, 2) and r.random() < 0.35:
+                    # the bound lives in a variable of its own that nothing else mentions: its last textual use is the header
+                    bn = self.fresh("b")
+                    e = self.var_ref(sc) if r.random() < 0.5 else None
+                    e = e or self.read_expr(sc, 1)
+                    be = ("bin", "mod", e, ("num", 4.0))
+                    if nargs == 2:
+                        be = ("bin", "add", be, start)
+                    pre = ("lassign", bn, be) if sc.is_func else ("gassign", bn, be)
+                    stop = ("lvar", bn) if sc.is_func else ("gvar", bn)
+                    idx_ok = None
+                    self.feat("for_range_var_bound")
                 sc.loopvars.append(lv)
                 if idx_ok:
                     sc.loopvars_int.append((lv, idx_ok))
                 sc.loop_kind.append("for")
                 body = self.block(sc, depth + 1, in_func_ret=in_func_ret)
+                if pre:
+                    # the body starts by computing something that needs a new temporary and a new variable, and shows it
+                    tn = self.fresh("t")
+                    lvx = ("lvar", lv) if sc.is_func else ("gvar", lv)
+                    te = ("bin", "add", ("bin", "mul", lvx, ("num", 2.0)), ("num", 1.0))
+                    pin = r.choice(list(PIN))
+                    lt = r.choice(self.S["generic_lt"])
+                    body = [("lassign", tn, te) if sc.is_func else ("gassign", tn, te),
+                            ("write", "s", [("num", float(PIN[pin])), ("num", float(lt[1])), ("lvar", tn) if sc.is_func else ("gvar", tn)],
+                             {"form": "pin", "pin": pin, "lt": lt[0]})] + body
                 if self.p.return_in_loops and sc.is_func and in_func_ret is not None and self.allow_early_return and r.random() < 0.5:
                     self.feat("return_at_end_of_loop_body")
                     rv = [("ret", self.expr(sc, 1, allow_call=False))] if in_func_ret else [("ret", None)]
@@ -600,7 +624,8 @@ class Gen:
                 if idx_ok:
                     sc.loopvars_int.remove((lv, idx_ok))
                 self.feat(f"for_range_{nargs}")
-                return ("forRange", not sc.is_func, lv, start, stop, step, body, {"nargs": nargs})
+                loop = ("forRange", not sc.is_func, lv, start, stop, step, body, {"nargs": nargs})
+                return ("seq", [pre, loop]) if pre else loop
             if k < 0.55 and self.p.for_list and not sc.is_func and sc.in_loop == 1:
                 lv = self.fresh("e")
                 vals = [("num", float(r.choice([1, 2, 3, 5, 8, 13, 0.5]))) for _ in range(r.randrange(1, 4))]
